@@ -85,6 +85,21 @@ def main():
                     if ev.get("Action") == "fail" and ev.get("Test"):
                         failed.add("%s::%s" % (ev.get("Package"), ev["Test"]))
                 regress = sorted(f for f in failed if f in stable)
+                # the machine is shared and loaded: re-run each failing stable test alone before believing it
+                still = []
+                for f in regress:
+                    top = f.split("::", 1)[1].split("/")[0]
+                    ok = False
+                    for _ in range(2):
+                        rc2, out2, _t = sh(["go", "test", "-vet=off", "-count=1", "-timeout", "20m", "-run", "^%s$" % top, "./" + pkg + "/"], wt, suite_env, timeout=1500)
+                        if rc2 == 0:
+                            ok = True
+                            break
+                    print("  re-run of %s alone: %s" % (top, "pass (load flake)" if ok else "FAIL"))
+                    if not ok:
+                        still.append(f)
+                result.setdefault("flaky_under_load", []).extend(sorted(set(regress) - set(still)))
+                regress = still
                 print("existing suite %s with change: rc=%d (%.0fs) failed=%d of which in stable baseline=%d" % (pkg, rc, t, len(failed), len(regress)))
                 result["suite_" + pkg] = {"rc": rc, "wall_s": round(t), "failed_not_in_stable_baseline": sorted(failed - set(regress))[:20], "failed_stable": regress[:20]}
                 if regress:
